@@ -3,6 +3,7 @@ package streamfilter
 import (
 	internaltypes "lunar/engine/streams/internal-types"
 	publictypes "lunar/engine/streams/public-types"
+	"strings"
 
 	"github.com/rs/zerolog/log"
 )
@@ -76,10 +77,16 @@ func (node *FilterNode) isDeclaredOn(url string) bool {
 		node.userFlows, node.systemFlowStart, node.systemFlowEnd,
 	} {
 		if len(flows) > 0 {
-			return flows[0].GetFilter().GetURL() == url
+			return declaredURLKey(flows[0].GetFilter().GetURL()) == declaredURLKey(url)
 		}
 	}
 	return false
+}
+
+// declaredURLKey is the form under which the URL tree stores a declared URL: it ignores
+// leading and trailing separators, so "a.com/x" and "a.com/x/" are one and the same node.
+func declaredURLKey(url string) string {
+	return strings.Trim(url, "./")
 }
 
 func (node *FilterNode) addSystemFlowStart(flow internaltypes.FlowI) error {
